@@ -389,7 +389,42 @@ def run_property(prop, tier, replay=None, only=None):
         with ctx.Pool(nproc, maxtasksperchild=1) as pool:
             results = pool.map(_worker, tasks, chunksize=1)
 
+    results.insert(0, _run_regressions(prop, mod, subs, known))
     return _finish(prop, tier, seed, mod, subs, known, results, t0)
+
+
+def _run_regressions(prop, mod, subs, known):
+    """Replay tier: saved (shrunk) cases of earlier findings, run as plain checks."""
+    t0 = time.time()
+    res = {"sub": "regressions", "shard": 0, "evaluations": 0, "hashes": [], "samples": [], "failures": [],
+           "known_hits": {}, "excluded_known": 0, "inconclusive": False, "exhaustive": None, "error": None,
+           "tags": {}}
+    rdir = os.path.join(VERIF, "regressions", prop)
+    byname = {s.name: s for s in mod.SUBS}
+    hashes = set()
+    try:
+        for fn in sorted(os.listdir(rdir)) if os.path.isdir(rdir) else []:
+            if not fn.endswith(".json"):
+                continue
+            with open(os.path.join(rdir, fn)) as fh:
+                data = json.load(fh)
+            sub = byname.get(data["sub"])
+            if sub is None:
+                continue
+            res["evaluations"] += 1
+            hashes.add(case_hash(data["case"]))
+            v = run_check(sub, data["case"])
+            if v is not None:
+                if _known_match(known, sub.name, v.sig):
+                    res["known_hits"][v.sig] = res["known_hits"].get(v.sig, 0) + 1
+                    continue
+                res["failures"].append({"sig": v.sig, "msg": f"[regression {fn}] " + v.msg, "case": data["case"],
+                                        "sub": sub.name})
+    except Exception as exc:  # noqa: BLE001
+        res["error"] = "".join(traceback.format_exception(type(exc), exc, exc.__traceback__))[-4000:]
+    res["hashes"] = sorted(hashes)
+    res["wall_s"] = time.time() - t0
+    return res
 
 
 def _finish(prop, tier, seed, mod, subs, known, results, t0):
@@ -424,10 +459,13 @@ def _finish(prop, tier, seed, mod, subs, known, results, t0):
         for k, v in r["known_hits"].items():
             known_hits[k] += v
         for f in r["failures"]:
-            failures.setdefault((r["sub"], f["sig"]), f)
+            failures.setdefault((f.get("sub", r["sub"]), f["sig"]), f)
     for name, d in per_sub.items():
         d["distinct_nontrivial"] = len(d.pop("_h"))
-        sub = {s.name: s for s in subs}[name]
+        sub = {s.name: s for s in subs}.get(name)
+        if sub is None:
+            d["rule"] = "saved shrunk cases of earlier findings, replayed as plain checks"
+            continue
         if sub.enum is None:
             d["exhaustive"] = False
         d["rule"] = sub.rule
@@ -445,7 +483,8 @@ def _finish(prop, tier, seed, mod, subs, known, results, t0):
                  "case": f["case"]},
                 fh, indent=1, sort_keys=True,
             )
-        per_sub[subname]["violations"] += 1
+        if subname in per_sub:
+            per_sub[subname]["violations"] += 1
         viol_lines.append((subname, sig, f["msg"], os.path.relpath(path, OUT)))
 
     for e in known:
